@@ -176,9 +176,16 @@ class FoldGen:
             if c[0] in ("true", "false"):
                 c = ("bin", "eq", c, ("true",))
             return ("while", c, self.body(env, d - 1, True))
-        if d > 0 and k < 0.74:
+        if d > 0 and k < 0.73:
             return ("loop", self.body(env, d - 1, True))
-        if in_loop and k < 0.78:
+        if d > 0 and k < 0.755:
+            x = self.fresh("q")
+            it = ("post", "iter", self.expr(env, ARR, d - 1))
+            return ("for", x, it, self.body(env + [(x, INT, False)], d - 1, True))
+        if d > 0 and k < 0.78:
+            x = self.fresh("u")
+            return ("whileset", x, INT, self.expr(env, INT, d - 1), self.body(env + [(x, INT, False)], d - 1, True))
+        if in_loop and k < 0.81:
             return (r.choice(["break", "continue"]),)
         if d > 0 and k < 0.84:
             arms = []
